@@ -160,4 +160,13 @@ def r19_5(ctx):
     return o
 
 
-RULES = [r19_1, r19_2, r19_3, r19_4, r19_5]
+def r19_6(ctx):
+    from rules import C07
+    o = C07.r07_2(ctx)
+    o.rule = "R19.6"
+    o.text = ("a directly constructed composite equals the same region however its subshapes were listed: == compares "
+              "the constituents as multisets, also for three components in a non-cyclic order (same analysis as R07.2)")
+    return o
+
+
+RULES = [r19_1, r19_2, r19_3, r19_4, r19_5, r19_6]
